@@ -821,6 +821,15 @@ theorem history_independent_record (B : Polygon.Backend) (A : F64) (pl : Bool) (
     (fun s op h => by rw [execF_polyline]; exact h) (fun s h => by simp [PolygonF.exec, PolygonF.clear, h])
     (fun s op => execF_observer B A s op) ops
 
+/-- **clearing restores the empty state**, after any history whatever -/
+theorem clear_after_any_history (B : Polygon.Backend) (A : ℚ) (pl : Bool) (ops : List Op) :
+    run B A (init pl) (ops ++ [Op.clear]) = init pl := by
+  rw [history_independent, effective_append_clear]; rfl
+
+theorem clear_after_any_history_record (B : Polygon.Backend) (A : F64) (pl : Bool) (ops : List Op) :
+    PolygonF.run B A (PolygonF.init pl) (ops ++ [Op.clear]) = PolygonF.init pl := by
+  rw [history_independent_record, effective_append_clear]; rfl
+
 /-- the queries are observers: whatever was asked before, a query returns what it returns on the object built by the
     effective `Add*` operations alone -/
 theorem query_after_history (B : Polygon.Backend) (A : ℚ) (pl : Bool) (pre post : List Op) (q : Op) :
